@@ -73,6 +73,13 @@ pub fn wans_from(s: &str) -> WAns {
 
 /// Runs `reads` successive Frame::read calls over a scripted stream and checks each against the reference.
 pub fn check_read(tape: &[u8], rscript: &[RAns], reads: usize) -> (String, Vec<V>) {
+    // every case on a fresh thread: a reader that keeps state between calls (thread-local scratch) must not make one
+    // case depend on the cases enumerated before it, and a reported case must replay on its own
+    let (t, r) = (tape.to_vec(), rscript.to_vec());
+    crate::util::maybe_isolated(move || check_read_here(&t, &r, reads))
+}
+
+fn check_read_here(tape: &[u8], rscript: &[RAns], reads: usize) -> (String, Vec<V>) {
     let log = new_log();
     let mut io = ScriptIo::new(tape.to_vec(), log.clone());
     io.rscript = rscript.to_vec();
@@ -164,6 +171,11 @@ pub fn check_read(tape: &[u8], rscript: &[RAns], reads: usize) -> (String, Vec<V
 }
 
 pub fn check_write(addr: u16, typ: u8, data: &[u8], wscript: &[WAns]) -> (&'static str, Vec<V>) {
+    let (d, w) = (data.to_vec(), wscript.to_vec());
+    crate::util::maybe_isolated(move || check_write_here(addr, typ, &d, &w))
+}
+
+fn check_write_here(addr: u16, typ: u8, data: &[u8], wscript: &[WAns]) -> (&'static str, Vec<V>) {
     let log = new_log();
     let mut io = ScriptIo::new(vec![], log.clone());
     io.wscript = wscript.to_vec();
@@ -270,6 +282,20 @@ fn read_case(tape: &[u8], script: &[RAns], reads: usize) -> Value {
 }
 
 pub fn run(ctx: &Ctx) -> Report {
+    let first = run_pass(ctx);
+    if first.violations.is_empty() || crate::util::ISOLATE_CASES.load(std::sync::atomic::Ordering::Relaxed) {
+        return first;
+    }
+    // something failed: enumerate again with every case on a fresh thread, so that what is reported replays on its own
+    crate::util::ISOLATE_CASES.store(true, std::sync::atomic::Ordering::Relaxed);
+    let mut second = run_pass(ctx);
+    if second.violations.is_empty() {
+        second.machinery_errors.push(format!("the direct pass saw {} violation signature(s) (e.g. {}) that do not reproduce when every case runs on a fresh thread: the subject's results depend on calls made earlier on the same thread (hidden thread-local/global state); no self-contained case could be produced here, see C15/C03 whose cases contain the history", first.violations.len(), first.violations.keys().next().cloned().unwrap_or_default()));
+    }
+    second
+}
+
+fn run_pass(ctx: &Ctx) -> Report {
     let mut rep = Report::new(ctx);
     let thorough = ctx.tier.thorough();
     rep.rule = "E3: the real Frame::read / Frame::write run against a scripted stream whose every call is answered from a finite script; enumerated: every composition of the stream into delivery sizes (short streams), \
@@ -472,6 +498,7 @@ pub fn run(ctx: &Ctx) -> Report {
 }
 
 pub fn replay(_ctx: &Ctx, case: &Value) -> Result<Vec<Violation>, String> {
+    crate::util::ISOLATE_CASES.store(true, std::sync::atomic::Ordering::Relaxed);
     match case["kind"].as_str() {
         Some("read") => {
             let tape = unhex(case["tape"].as_str().ok_or("tape")?);
